@@ -26,3 +26,24 @@ Fixpoint implied (a b : list bool) : bool :=
   | x :: r, y :: q => implb x y && implied r q
   | _, _ => false
   end.
+
+(* ---------------------------------------------------------------- the guard of C09_strip_keeps (finding F16) *)
+(* [Element.__append] passes every concatenated string through [_add_text], i.e. [collapse]; the guard says that
+   none of the strings handed to [_add_text] while [_strip_tags] rebuilds elements contains two adjacent spaces *)
+Definition append_ok (st : option str * list node) (p : piece) : bool :=
+  let '(tx, ks) := st in
+  match p with
+  | PN _ => true
+  | PS s => match rev ks with [] => no_dsp (oget tx ++ s) | l :: _ => no_dsp (oget (tail_of l) ++ s) end
+  end.
+Fixpoint fold_ok (ps : list piece) (st : option str * list node) : bool :=
+  match ps with [] => true | p :: r => append_ok st p && fold_ok r (append_piece collapse st p) end.
+Fixpoint strip_ok (sp : kind -> bool -> bool) (pr : kind -> bool) (protected : bool) (n : node) : bool :=
+  match n with
+  | Node k a sel tx ks tl =>
+      let res := map (strip_ collapse sp pr (pr k)) ks in
+      forallb (strip_ok sp pr (pr k)) ks &&
+      (if negb protected && sp k sel then true
+       else if negb (existsb snd res) then true
+       else no_dsp (oget tx) && fold_ok (flat_map fst res) (add_text collapse None (oget tx), []))
+  end.
